@@ -165,6 +165,19 @@ def check_waits(ctx, rid, cls, cvfield, mutex, pred_fields):
         ok = v is not None and v.st == HELD and v.mutex == "this." + mutex and v.mode == "X"
         ctx.ob(rid, ok, f.loc(st), "%s.%s() is called with a lock that owns %s" % (cvfield, st["callee"]["name"], mutex),
                "" if ok else "lock argument state: %s" % (v,), fn=top.label, inst=f.qname)
+        if st["callee"]["name"] in ("wait_for", "wait_until"):
+            # a bounded wait ends without the event when its time is up: the caller has to be told (the result is
+            # returned or tested), an ignored expiry lets the thread go on as if the event had happened
+            cur, par = st, f.par(st)
+            while par is not None and par["k"] in ("ExprWithCleanups", "ImplicitCastExpr", "ParenExpr", "CXXBindTemporaryExpr",
+                                                   "MaterializeTemporaryExpr"):
+                cur, par = par, f.par(par)
+            discarded = par is None or (par["k"] in ("CompoundStmt", "IfStmt", "WhileStmt", "ForStmt", "DoStmt", "CXXForRangeStmt",
+                                                     "CXXTryStmt", "CXXCatchStmt", "SwitchStmt", "CaseStmt", "DefaultStmt", "LabelStmt")
+                                        and par.get("cond") != cur["id"])
+            ctx.ob(rid, not discarded, f.loc(st), "the outcome of the bounded wait %s.%s() is reported or tested" % (cvfield, st["callee"]["name"]),
+                   "" if not discarded else "the result is ignored: when the time is up the thread continues as if the awaited state "
+                   "had been reached", fn=top.label, inst=f.qname)
         g = predicate_lambda(ctx, f, st)
         if g is not None:
             reads = shared_fields_read(ctx, g, cls, site=f)
